@@ -319,11 +319,68 @@ fn dump<'tcx>(tcx: TyCtxt<'tcx>, krate: &str) -> J {
                     if let Ok(val) = tcx.const_eval_poly(did) {
                         if let Some(si) = val.try_to_scalar_int() {
                             v.push(("int", J::I(si.to_bits(si.size()) as i128)));
+                        } else if let ty::Array(elem, _) = t.kind() {
+                            // a constant table (the compiler's own evaluation of the initialiser): element size and the
+                            // raw little-endian value of every element, when the memory holds no pointers
+                            let env = ty::TypingEnv::fully_monomorphized();
+                            if let (Ok(el), Ok(al)) = (tcx.layout_of(env.as_query_input(*elem)), tcx.layout_of(env.as_query_input(t))) {
+                                let esz = el.size.bytes() as usize;
+                                let total = al.size.bytes() as usize;
+                                if let rustc_middle::mir::ConstValue::Indirect { alloc_id, offset } = val {
+                                    if esz > 0 && esz <= 16 && total <= 65536 {
+                                        if let rustc_middle::mir::interpret::GlobalAlloc::Memory(a) = tcx.global_alloc(alloc_id) {
+                                            let inner = a.inner();
+                                            let start = offset.bytes() as usize;
+                                            if inner.provenance().ptrs().is_empty() && start + total <= inner.len() {
+                                                let bytes = inner.inspect_with_uninit_and_ptr_outside_interpreter(start..start + total);
+                                                let mut elems = Vec::new();
+                                                for ch in bytes.chunks(esz) {
+                                                    let mut x: u128 = 0;
+                                                    for (i, b) in ch.iter().enumerate() {
+                                                        x |= (*b as u128) << (8 * i);
+                                                    }
+                                                    elems.push(J::I(x as i128));
+                                                }
+                                                v.push(("elem_size", J::I(esz as i128)));
+                                                v.push(("elem_ty", cx.ty(*elem)));
+                                                v.push(("elems", J::A(elems)));
+                                            }
+                                        }
+                                    }
+                                }
+                            }
                         }
                     }
                 }
                 if let DefKind::Static { mutability, .. } = kind {
                     v.push(("mutable", J::B(mutability.is_mut())));
+                    // an immutable static table without interior mutability: its initial value is its value
+                    if !mutability.is_mut() && tcx.generics_of(did).count() == 0 {
+                        if let ty::Array(elem, _) = t.kind() {
+                            let env = ty::TypingEnv::fully_monomorphized();
+                            if t.is_freeze(tcx, env) {
+                                if let (Ok(el), Ok(al), Ok(a)) = (tcx.layout_of(env.as_query_input(*elem)), tcx.layout_of(env.as_query_input(t)), tcx.eval_static_initializer(did)) {
+                                    let esz = el.size.bytes() as usize;
+                                    let total = al.size.bytes() as usize;
+                                    let inner = a.inner();
+                                    if esz > 0 && esz <= 16 && total <= 65536 && inner.provenance().ptrs().is_empty() && total <= inner.len() {
+                                        let bytes = inner.inspect_with_uninit_and_ptr_outside_interpreter(0..total);
+                                        let mut elems = Vec::new();
+                                        for ch in bytes.chunks(esz) {
+                                            let mut x: u128 = 0;
+                                            for (i, b) in ch.iter().enumerate() {
+                                                x |= (*b as u128) << (8 * i);
+                                            }
+                                            elems.push(J::I(x as i128));
+                                        }
+                                        v.push(("elem_size", J::I(esz as i128)));
+                                        v.push(("elem_ty", cx.ty(*elem)));
+                                        v.push(("elems", J::A(elems)));
+                                    }
+                                }
+                            }
+                        }
+                    }
                 }
                 v.push(("thir", thirdump::thir_body(&cx, ldid)));
                 consts.push((path, J::O(v)));
@@ -429,9 +486,11 @@ fn adt_info<'tcx>(cx: &Cx<'tcx>, did: DefId) -> J {
                 "attrs" => attrs_of(cx, f.did)
             });
         }
+        let discr: i128 = if def.is_enum() { def.discriminant_for_variant(tcx, vi).val as i128 } else { 0 };
         variants.push(obj! {
             "name" => J::s(var.name.to_string()),
             "idx" => J::I(vi.as_u32() as i128),
+            "discr" => J::I(discr),
             "fields" => J::A(fields),
             "attrs" => attrs_of(cx, var.def_id)
         });
